@@ -96,7 +96,7 @@ Lemma json_unquote_escape s : forall rest acc,
   json_unquote (flat_map json_escape_byte s ++ [34%N] ++ rest) acc = Some (rev acc ++ s, rest).
 Proof.
   induction s as [|b s IH]; intros rest acc.
-  - cbn [flat_map app json_unquote]. rewrite app_nil_r. reflexivity.
+  - cbn [flat_map app json_unquote]. rewrite app_nil_r, frev_rev. reflexivity.
   - cbn [flat_map]. rewrite <- app_assoc, json_unquote_escape_byte, IH.
     cbn [rev]. rewrite <- app_assoc. reflexivity.
 Qed.
@@ -146,7 +146,7 @@ Lemma json_unquote_escape_min s : forall rest acc,
   json_unquote (flat_map json_escape_min s ++ [34%N] ++ rest) acc = Some (rev acc ++ s, rest).
 Proof.
   induction s as [|b s IH]; intros rest acc.
-  - cbn [flat_map app json_unquote]. rewrite app_nil_r. reflexivity.
+  - cbn [flat_map app json_unquote]. rewrite app_nil_r, frev_rev. reflexivity.
   - cbn [flat_map]. rewrite <- app_assoc, json_unquote_escape_min_byte, IH.
     cbn [rev]. rewrite <- app_assoc. reflexivity.
 Qed.
@@ -155,7 +155,7 @@ Lemma json_unquote_escape_u s : forall rest acc,
   json_unquote (flat_map json_escape_u s ++ [34%N] ++ rest) acc = Some (rev acc ++ s, rest).
 Proof.
   induction s as [|b s IH]; intros rest acc.
-  - cbn [flat_map app json_unquote]. rewrite app_nil_r. reflexivity.
+  - cbn [flat_map app json_unquote]. rewrite app_nil_r, frev_rev. reflexivity.
   - cbn [flat_map]. rewrite <- app_assoc, json_unquote_escape_u_byte, IH.
     cbn [rev]. rewrite <- app_assoc. reflexivity.
 Qed.
@@ -203,7 +203,7 @@ Lemma json_unquote_plain s : forall rest acc,
   json_unquote (s ++ [34%N] ++ rest) acc = Some (rev acc ++ s, rest).
 Proof.
   induction s as [|c s IH]; intros rest acc Hs.
-  - cbn [app json_unquote]. rewrite app_nil_r. reflexivity.
+  - cbn [app json_unquote]. rewrite app_nil_r, frev_rev. reflexivity.
   - inversion Hs as [|c' s' Hc Hs']; subst. destruct Hc as (Hq & Hb & Hge).
     rewrite <- app_comm_cons. cbn [json_unquote].
     replace (c =? 34)%N with false by lia.
